@@ -79,6 +79,11 @@ class DecodeState:
         byte_length = (bit_length + self.cursor_bit_position + 7) // 8
         if self.cursor_byte_position + byte_length > len(self.coded_message):
             raise DecodeError(f"Expected a longer message.")
+        if bit_length % 8 != 0 and base_data_type not in (DataType.A_INT32, DataType.A_UINT32):
+            # e.g., a bit length specified by a length key that is
+            # part of the PDU
+            raise DecodeError(f"The bit length of {base_data_type.value} objects "
+                              f"must be a multiple of 8 (is: {bit_length})")
         extracted_bytes = self.coded_message[self.cursor_byte_position:self.cursor_byte_position +
                                              byte_length]
 
